@@ -1433,7 +1433,7 @@ func TestVerifC19(t *testing.T) {
 	// decode failures are reported through the global error handler: keep them off stderr
 	otel.SetErrorHandler(otel.ErrorHandlerFunc(func(error) {}))
 
-	jobs := []string{"lists", "pairs", "lookalike-schemas", "detect", "history"}
+	jobs := []string{"lists", "pairs", "lookalike-schemas", "wide", "detect", "history"}
 	for i := 0; i < tripleParts; i++ {
 		jobs = append(jobs, fmt.Sprintf("triples/%02d", i))
 	}
@@ -1483,6 +1483,60 @@ func TestVerifC19(t *testing.T) {
 			c.jobLists(listLen)
 		case job == "pairs":
 			c.jobPairs(space)
+		case job == "wide":
+			// more than 10 attributes: the attribute set switches from fixed-size arrays to its reflect-built
+			// representation there, which every real Default()+process+host resource uses
+			r.Section(job)
+			mkSet := func(lo, hi int, val int64) []attribute.KeyValue {
+				var kvs []attribute.KeyValue
+				for i := lo; i <= hi; i++ {
+					kvs = append(kvs, attribute.Int64(fmt.Sprintf("k%02d", i), val))
+				}
+				return kvs
+			}
+			sets := [][]attribute.KeyValue{mkSet(0, 5, 1), mkSet(6, 11, 2), mkSet(0, 10, 3), mkSet(3, 14, 4), mkSet(0, 19, 5)}
+			for i, A := range sets {
+				for j, B := range sets {
+					if !r.Want() {
+						continue
+					}
+					r.Eval()
+					cas := map[string]any{"a_keys": len(A), "b_keys": len(B), "a": i, "b": j}
+					func() {
+						defer func() {
+							if p := recover(); p != nil {
+								r.FailHere("panic|wide merge", cas, "panic: %v", p)
+							}
+						}()
+						a, b := resource.NewSchemaless(A...), resource.NewSchemaless(B...)
+						got, err := resource.Merge(a, b)
+						if err != nil {
+							r.FailHere("merge-error|wide", cas, "Merge: %v", err)
+							return
+						}
+						union := map[attribute.Key]attribute.KeyValue{}
+						for _, kv := range A {
+							union[kv.Key] = kv
+						}
+						for _, kv := range B {
+							union[kv.Key] = kv
+						}
+						var want []attribute.KeyValue
+						for _, kv := range union {
+							want = append(want, kv)
+						}
+						sort.Slice(want, func(x, y int) bool { return want[x].Key > want[y].Key }) // handed over in DESCENDING order
+						ref := resource.NewSchemaless(want...)
+						if canonKVs(got.Attributes()) != canonKVs(want) || got.Len() != len(want) {
+							r.FailHere("merge-attrs|more than 10 attributes", cas, "Merge holds %s, union with right bias is %s", canonKVs(got.Attributes()), canonKVs(want))
+						}
+						if !got.Equal(ref) || !ref.Equal(got) || got.Equivalent() != ref.Equivalent() {
+							r.FailHere("identity|more than 10 attributes", cas, "the merged resource and a resource built from the same %d attributes in another order are not Equal / have different Equivalent()", len(want))
+						}
+						r.Outcome(fmt.Sprint("wide", i, j, got.Len()))
+					}()
+				}
+			}
 		case job == "lookalike-schemas":
 			// schema URLs are compared as they are written: URLs that only look alike (a trailing slash,
 			// upper-case host or path, a trailing space) differ, so merging them is a conflict -- all
